@@ -49,6 +49,11 @@ func checkC08(c *Ctx, r *Report) {
 	// dial succeeded
 	connectStores(c, r, "R8.7")
 	r.floor("R8.7", 1)
+	// R8.9: never hangs on its own lock: no exit of a client method leaves the client's mutex held
+	for _, name := range []string{"Client", "SerialClient"} {
+		lockLeakRule(c, r, analyseLocks(c, "", name), "R8.9", name)
+	}
+	r.floor("R8.9", 4)
 	// R8.8: never panics: the installed reply functions cannot fail on any reply bytes
 	installedNoPanic(c, r, "R8.8")
 	r.floor("R8.8", 4)
